@@ -152,7 +152,13 @@ func init() {
 			isRTL := *rtl == "yes" || (*rtl == "both" && g.chance(0.5))
 			g.resolveRefs(t, has(o, "n"))
 			if *spelling && len(o) > 0 {
-				switch g.pick(3) {
+				switch g.pick(5) {
+				case 3:
+					// an option item inside a group: it holds for the rest of that group
+					t = Opt("", "", T("cat", OptSet(strings.Join(o, ""), ""), t))
+				case 4:
+					// ... and no further: what follows the group runs without the options
+					t = T("cat", Opt("", "", T("cat", OptSet(strings.Join(o, ""), ""), t)), Grp("", Lit('a')))
 				case 0:
 					t = T("cat", OptSet(strings.Join(o, ""), ""), t)
 				case 1:
